@@ -56,4 +56,40 @@ CLAIMS = {
                 "the regex engine's model of CPython matching is validated "
                 "against re in the thorough tier.",
     },
+    "C03": {
+        "level": "other",
+        "technique": "tagged regex automata (capture-function equivalence), "
+                     "branch-condition-to-regular-language translation of "
+                     "the dispatcher, decision-table cross-check",
+        "text": "Decides the per-line grammar exactly on the domain of "
+                "stripped, newline-free lines: the capture functions of "
+                "_keyvalue_rx and _section_start_rx under CPython's "
+                "backtracking priorities equal unambiguous references; the "
+                "dispatcher's outcome map (languages and slice windows) "
+                "equals the documented classification; no integer subscript "
+                "can see an empty line; the handlers' decision tables "
+                "(empty form, rstrip, lower-casing, stack push/pop/compare, "
+                "directive set and argument requirement, value hand-off, "
+                "error class) equal a parsed reference.  Does not decide "
+                "multi-line semantics beyond the per-call stack discipline.",
+        "note": _TB + "  Lines contain no newline after strip().",
+    },
+    "C04": {
+        "level": "other",
+        "technique": "regular-language equivalence + thread-list maximal-"
+                     "munch analysis + decision table with affine slice "
+                     "bounds cross-checked against a parsed reference",
+        "text": "Decides the splitter completely: the name language and "
+                "that the priority-chosen prefix match is the longest; the "
+                "five-way split with every slice bound, delimiter position, "
+                "kind and error class; one iteration of the assembly loop "
+                "(prefix then value appended, rest only from the splitter's "
+                "4th result, mapping gets the lower-cased and getenv the "
+                "case-preserved name, missing value raises with (source, "
+                "name)); the identity fast path.  Does not decide mapping or "
+                "environment values.",
+        "note": _TB + "  The loop of substitute() is analysed for one "
+                "iteration with the loop-carried state (result, rest) "
+                "observed at its end.",
+    },
 }
